@@ -529,16 +529,21 @@ func (p *parser) readStr(term byte) string {
 
 func (p *parser) readRegex() *regexp.Regexp {
 	start := p.pos
+	var done bool
 out:
 	for p.pos < len(p.buf) {
 		b := p.buf[p.pos]
 		p.pos++
 		switch b {
 		case '/':
+			done = true
 			break out
 		case '\\':
 			p.pos++ // skip and then continue
 		}
+	}
+	if !done {
+		p.raise("regex not terminated")
 	}
 	rx, err := regexp.Compile(string(p.buf[start : p.pos-1]))
 	if err != nil {
